@@ -2,6 +2,8 @@ import InfluxQL.Gen.SitesAst
 import InfluxQL.Model.GroupBy
 import InfluxQL.Lemmas.OpsChecked
 import InfluxQL.Lemmas.RewriteChecked
+import InfluxQL.Lemmas.SourcesCodecChecked
+import InfluxQL.Model.ParserStmt
 import InfluxQL.Props.C19
 import InfluxQL.Props.C20
 /-!
@@ -211,6 +213,7 @@ def modelledSites : List Site := [
   sRegexVals0, sRegexValsI,
   sTimeFieldsIdx, sTimeFieldsPre, sTimeFieldsPost,
   sTimeAscending,
+  sMarshalAssert, sMarshalItems, sUnmarshalSlot,
   sEvalTypeArgs,
   sEvalArgs,
   sEvalMod, sEvalUIMod, sEvalDiv, sEvalUIDiv, sEvalIUMod, sEvalIUDiv,
@@ -228,7 +231,8 @@ def modelledFunctions : List String := [
   "ExprsToConjunction", "Fields.Less", "Fields.Swap", "Rewrite", "SelectStatement.ColumnNames",
   "SelectStatement.FieldExprByName", "SelectStatement.GroupByInterval", "SelectStatement.GroupByOffset",
   "SelectStatement.RewriteFields", "SelectStatement.RewriteRegexConditions", "SelectStatement.RewriteTimeFields",
-  "SelectStatement.TimeAscending", "TypeValuerEval.evalCallExprType", "ValuerEval.Eval",
+  "SelectStatement.TimeAscending", "Sources.MarshalBinary", "Sources.UnmarshalBinary",
+  "TypeValuerEval.evalCallExprType", "ValuerEval.Eval",
   "ValuerEval.evalBinaryExpr", "VarRefs.Less", "VarRefs.Strings", "VarRefs.Swap", "cloneSource",
   "matchExactRegex", "matchRegex",
   "reduceBinaryExprDurationLHS", "reduceBinaryExprIntegerLHS", "reduceBinaryExprUnsignedLHS", "reduceCall"
@@ -241,18 +245,26 @@ breaks this obligation until the model has a primitive for it. -/
 theorem gen_modelled_sites :
     sitesAst.filter (fun s => modelledFunctions.contains s.1) = modelledSites := by decide
 
-/-- 68 of the 71 inventoried sites are covered by a checked primitive and a theorem. -/
-theorem gen_modelled_sites_count : modelledSites.length = 68 ∧ sitesAst.length = 71 := by decide
+/-- All 71 inventoried sites are checked primitives of a model with a theorem that says when they
+fire: never (most), never under a stated contract (`sort.Interface` indices, `Regex.wf`, `int64`
+integers, a kind-preserving `Rewriter`), or — one site, `source.(*Measurement)` in
+`Sources.MarshalBinary` — exactly on a `Sources` value that holds a subquery
+(`marshalBinary_panics_iff`, an open finding). -/
+theorem gen_modelled_sites_count : modelledSites.length = 71 ∧ sitesAst.length = 71 := by decide
 
-/-- The 13 sites of `Rewrite` in the list are the sites the assertions of
+/-- The 13 sites of `Rewrite` in the inventory are the sites the assertions of
 `Model/RewriteChecked.lean` carry. -/
 theorem gen_rewrite_sites :
     sitesAst.filter (fun s => s.1 == "Rewrite") = Checked.rewriteSites := by decide
 
-/-- The remaining 3 sites: the protobuf codec of `Sources`. -/
+/-- The 3 sites of the `Sources` codec are the sites of `Model/SourcesCodecChecked.lean`. -/
+theorem gen_codec_sites :
+    sitesAst.filter (fun s => s.1 == "Sources.MarshalBinary" || s.1 == "Sources.UnmarshalBinary")
+      = Checked.codecSites := by decide
+
+/-- No function with an inventoried site is without a checked model. -/
 theorem gen_unmodelled_functions :
-    ((sitesAst.filter (fun s => !modelledFunctions.contains s.1)).map (·.1)).eraseDups
-      = ["Sources.MarshalBinary", "Sources.UnmarshalBinary"] := by
+    ((sitesAst.filter (fun s => !modelledFunctions.contains s.1)).map (·.1)).eraseDups = [] := by
   decide
 
 /-! ## `ColumnNames`, `FieldExprByName`, `TimeAscending`, `ExprsToConjunction`, `RewriteTimeFields` -/
@@ -528,6 +540,85 @@ theorem rewrite_contract_necessary (rw : Node → Node) (e : Expr) (m : Node)
     rewriteChecked rw (.expr (.paren e)) = .panic sRwNExpr.str := by
   simp only [rewriteChecked] at h ⊢
   simp only [rewriteExpr, h, hm, Checked.ok_bind, assertT, Checked.panic_bind]
+
+/-! ## The protobuf codec of `Sources` (`Model/SourcesCodecChecked.lean`)
+
+Between the `Sources` value and the record list handed to / received from the protobuf library. -/
+
+open Checked in
+/-- **C13 (Sources.MarshalBinary), partial.** On a `Sources` value whose elements are all
+measurements the assertion `source.(*Measurement)` holds and the stores `pb.Items[i]` are in
+range: the record list is the list of encoded measurements. -/
+theorem marshalBinary_no_panic_partial (a : List Source) (h : ∀ s ∈ a, (sourceAsMeasurement s).isSome) :
+    marshalItems a = .ok (a.map marshalSlot) := marshalItems_of_measurements a h
+
+open Checked in
+/-- **C13 is violated by `Sources.MarshalBinary`.** It panics — at `source.(*Measurement)` — exactly
+when the `Sources` value holds a subquery: the function asserts `*Measurement` for every element
+without a type switch or comma-ok, and `*SubQuery` is the other `Source` type. -/
+theorem marshalBinary_panics_iff (a : List Source) :
+    marshalItems a = .panic sMarshalAssert.str ↔ ∃ s ∈ a, ∃ sub, s = .subquery sub := by
+  constructor
+  · intro hp
+    by_cases h : ∀ s ∈ a, (sourceAsMeasurement s).isSome
+    · rw [marshalItems_of_measurements a h] at hp; cases hp
+    · simp only [Classical.not_forall] at h
+      obtain ⟨s, hs, hn⟩ := h
+      cases s with
+      | measurement m => exact absurd rfl hn
+      | subquery sub => exact ⟨_, hs, sub, rfl⟩
+  · rintro ⟨s, hs, sub, rfl⟩
+    exact marshalItems_of_subquery a ⟨_, hs, rfl⟩
+
+/-- `SELECT a FROM (SELECT a FROM m)`. -/
+def marshalWitnessText : Str :=
+  ['S','E','L','E','C','T',' ','a',' ','F','R','O','M',' ','(','S','E','L','E','C','T',' ','a',' ','F','R','O','M',' ','m',')']
+
+/-- "The text parses to a SELECT whose `Sources.MarshalBinary()` panics", as a computation. -/
+def parsesAndMarshalPanics (r : Except Fail Statement) : Bool :=
+  match r with
+  | .ok (.select s) => (Checked.marshalItems s.sources).isPanic
+  | _ => false
+
+open Checked in
+/-- **Counterexample on a parsed statement** (kernel-evaluated with the model's parser): the statement
+`SELECT a FROM (SELECT a FROM m)` is accepted, and `MarshalBinary` on its `Sources` panics.
+Confirmed on the Go code: `interface conversion: influxql.Source is *influxql.SubQuery, not
+*influxql.Measurement`. -/
+theorem marshalBinary_panics_on_parsed_statement :
+    ∃ s, parseStatementText marshalWitnessText [] [] = .ok (.select s) ∧
+      marshalItems s.sources = .panic sMarshalAssert.str := by
+  have h : parsesAndMarshalPanics (parseStatementText marshalWitnessText [] []) = true := by decide +kernel
+  unfold parsesAndMarshalPanics at h
+  split at h
+  · rename_i s heq
+    refine ⟨s, heq, ?_⟩
+    by_cases hm : ∀ x ∈ s.sources, (sourceAsMeasurement x).isSome
+    · rw [marshalItems_of_measurements _ hm] at h; cases h
+    · simp only [Classical.not_forall] at hm
+      obtain ⟨x, hx, hn⟩ := hm
+      refine marshalItems_of_subquery _ ⟨x, hx, ?_⟩
+      cases x with
+      | measurement m => exact absurd rfl hn
+      | subquery sub => rfl
+  · cases h
+
+open Checked in
+/-- **C13 (Sources.UnmarshalBinary).** On every record list the protobuf library can hand back,
+and whatever `regexp.Compile` says about the regex texts in it, the stores `(*a)[i]` are in range:
+the result is the list of decoded measurements, or the error for a regex that does not compile —
+never a panic. -/
+theorem unmarshalBinary_no_panic (compiles : Str → Bool) (items : List PbMeasurement) :
+    unmarshalItems compiles items = .ok (items.map fun pb => some (.measurement (decodedMeasurement pb))) ∨
+    unmarshalItems compiles items = .err errBadRegex := unmarshalItems_cases compiles items
+
+open Checked in
+/-- Decoding an encoded measurement returns it, up to `SystemIterator` (not encoded), if its regex
+compiles. -/
+theorem decode_encode_measurement (compiles : Str → Bool) (m : Measurement)
+    (h : ∀ r, m.regex = some r → compiles r = true) :
+    decodeMeasurement compiles (encodeMeasurement m) = .ok { m with systemIterator := [] } :=
+  decode_encode compiles m h
 
 /-! ## `Reduce`, `Eval` -/
 
